@@ -115,7 +115,7 @@ def elem_ty(f: Field):
     if k == 'b':
         return 'bool'
     if k == 'u':
-        return f"u{w}"
+        return f"arbitrary_int::u{w}" if f.qualified else f"u{w}"
     if k == 'n':
         return f"u{w}"
     if k == 'i':
@@ -233,8 +233,23 @@ def head_text(s: Struct, const_name=None):
 
 
 def default_lit(s: Struct):
+    """the default literal in one of several spellings (decimal, hex, binary, underscored), chosen by the value"""
     d = s.default
-    return hex(d) if d > 9 else str(d)
+    if d <= 9:
+        return str(d)
+    k = (d ^ s.n) % 4
+    if k == 0:
+        return str(d)
+    if k == 1:
+        return hex(d)
+    if k == 2:
+        return bin(d)
+    h = f"{d:x}"
+    parts = []
+    while h:
+        parts.append(h[-4:])
+        h = h[:-4]
+    return "0x" + "_".join(reversed(parts))
 
 
 def struct_decl(s: Struct, derives='', doc=False):
